@@ -290,9 +290,10 @@ theorem sorted_view (ty : Option Bytes) (db : Db) (hnd : (db.map (·.1)).Nodup) 
 
 /-- The fast path returns what the cursor walk over the sorted members returns (the real code
     returns it in hash-table order). -/
-theorem sscan_eq_scanSorted (hg : g.ok) (members : List Bytes) (c count : Nat) (pat : Option Bytes) :
+theorem sscan_eq_scanSorted (hg : g.ok) (hr : g.slotCursor = false) (members : List Bytes) (c count : Nat) (pat : Option Bytes) :
     sscan g members c count pat = scanSorted g (matchOpt g.lossy pat) (sortKeys members) c count := by
   unfold sscan
+  simp only [hr, Bool.false_eq_true, if_false]
   split
   · rename_i h
     obtain ⟨hlen, rfl, rfl⟩ := h
